@@ -93,6 +93,8 @@ fn gen_key(r: &mut Rng) -> Vec<Word> {
         3 => vec![r.range(0, 3), r.range(0, 3)],
         4 => vec![],
         5 => vec![3, r.range(0, 30)],
+        6 => vec![-1],
+        7 => vec![2, -1],
         _ => vec![r.range(0, 5)],
     }
 }
@@ -137,13 +139,14 @@ fn reader(o: &mut Vec<Op>, r: &mut Rng, abs: Word, post: bool, contracts: &[Cont
         (true, false) => PKRNG,
         (true, true) => PKREX,
     });
-    // observed beacon: MAGIC, B_OBS, tag, abs, <room words just written>
+    // observed beacon: MAGIC, B_OBS, tag, abs, n, base, <room words just written>
     o.extend([PUSH(MAGIC), PUSH(B_OBS)]);
     push_tag(o);
-    o.push(PUSH(abs));
-    // address of the block = memory length - room
-    o.extend([PUSH(0), ALOC, PUSH(room), SUB, PUSH(room), LODR]);
-    o.extend([PUSH(4 + room), PUSH(0), PUSH(0), KRNG]);
+    o.extend([PUSH(abs), PUSH(n)]);
+    // address of the block = memory length - room (kept in the key so that the checker can make
+    // the [address, length] pairs relative: they depend on how much memory the node inherited)
+    o.extend([PUSH(0), ALOC, PUSH(room), SUB, DUP, PUSH(room), LODR]);
+    o.extend([PUSH(6 + room), PUSH(0), PUSH(0), KRNG]);
 }
 
 /// Ops that succeed on any input and change what flows downstream.
